@@ -71,7 +71,7 @@ Theorem C05_payload_preserved : forall s o s' evs, reachable s -> accepted s o s
   In x' (live s) \/
   (exists sender dest amount fee token, is_send o sender dest amount fee token /\ 0 < amount /\ 0 <= fee /\
       x' = mk_tx (next_tx s) sender dest token amount fee /\ In x' (pool s')) \/
-  (exists x who add token which, In x (pool s) /\ o = IncreaseFee (tx_id x) who add token which /\ 0 < add /\
+  (exists x who add token, In x (pool s) /\ is_fee_inc o (tx_id x) who add token /\ 0 < add /\
       x' = with_fee x (tx_fee x + add) /\ In x' (pool s')).
 Proof. intros s o s' evs R; apply payload_preserved, reachable_inv, R. Qed.
 Print Assumptions C05_payload_preserved.
@@ -79,7 +79,7 @@ Print Assumptions C05_payload_preserved.
 Theorem C05_live_records_unchanged : forall s o s' evs, reachable s -> accepted s o s' evs -> forall x, In x (live s) ->
   In x (live s') \/
   (o = Cancel (tx_id x) (tx_sender x) /\ In x (pool s)) \/
-  (exists who add token which, o = IncreaseFee (tx_id x) who add token which /\ In x (pool s) /\
+  (exists who add token, is_fee_inc o (tx_id x) who add token /\ In x (pool s) /\
       In (with_fee x (tx_fee x + add)) (pool s')) \/
   (exists h b, o = BatchExecuted (b_token b) (b_nonce b) h /\ In b (batches s) /\ In x (b_txs b)).
 Proof. intros s o s' evs R; apply live_preserved, reachable_inv, R. Qed.
@@ -229,3 +229,45 @@ Theorem C05_migrate_preserves_ids_records_and_heights : forall s s' evs, accepte
   p_avg_ext (prm s') = p_avg_ext (prm s) /\ p_max_elems (prm s') = p_max_elems (prm s) /\ p_call_timeout (prm s') = 604800000.
 Proof. exact migrate_preserves. Qed.
 Print Assumptions C05_migrate_preserves_ids_records_and_heights.
+
+(* ---- the precompile entry points (crossChain, increaseBridgeFee; cancelSendToExternal and executeClaim run the same keeper
+   code as the messages) ---- *)
+(* a fee increase through the precompile costs the payer exactly the added fee in the form it was offered in (FX from the bank,
+   a token as ERC-20) and moves no other user balance; the transfer's origin (relation) is untouched, so a later refund
+   still goes back in the form the TRANSFER came in (C05_refund_exact) *)
+Theorem C05_fee_exact_through_precompile : forall s id who add token s' evs, reachable s -> 0 <= who ->
+  accepted s (IncreaseFeeP id who add token) s' evs ->
+  0 < add /\
+  (exists k, kind_of (toks s) token = Some k /\
+     get_bal (bal s') (who, token, offered_component k) = get_bal (bal s) (who, token, offered_component k) - add /\
+     forall k0, user_key k0 -> k0 <> (who, token, offered_component k) -> get_bal (bal s') k0 = get_bal (bal s) k0) /\
+  (exists x L, In x (pool s) /\ tx_id x = id /\ tx_token x = token /\
+     Permutation (pool s) (x :: L) /\ Permutation (pool s') (with_fee x (tx_fee x + add) :: L)) /\
+  batches s' = batches s /\ calls s' = calls s /\ relation s' = relation s /\
+  next_tx s' = next_tx s /\ next_batch s' = next_batch s /\ next_call s' = next_call s /\ obs_ext s' = obs_ext s /\ evs = [].
+Proof. intros s id who add token s' evs R; apply fee_exact_p, reachable_inv, R. Qed.
+Print Assumptions C05_fee_exact_through_precompile.
+
+(* ---- genesis round trip: what is preserved, what is not ---- *)
+Theorem C05_genesis_export_import_preserves : forall s,
+  let s' := export_import s in
+  pool s' = pool s /\ batches s' = batches s /\ by_block s' = by_block s /\
+  evn s' = evn s /\ obs_ext s' = obs_ext s /\ obs_fx s' = obs_fx s /\ fxh s' = fxh s /\
+  bal s' = bal s /\ prm s' = prm s /\ toks s' = toks s /\ relation s' = relation s /\
+  next_tx s' = 1 /\ next_batch s' = 1 /\ next_call s' = 1 /\
+  calls s' = [] /\ by_sender s' = [] /\ from_msg s' = [] /\ pending s' = [].
+Proof. exact export_import_preserves. Qed.
+Print Assumptions C05_genesis_export_import_preserves.
+
+(* ---- finding C05-3: "settled ... by a refund to its refund address" cannot happen for a bridge call that carries an
+   externally owned ERC-20 (registered through RegisterNativeERC20): the refund panics, so the failure result can never be
+   executed and no event at or after the time-out can be observed any more (witness; replayed on the real application) ---- *)
+Theorem C05_bridge_call_refund_of_external_erc20_impossible_refuted :
+  reachable e_state /\
+  map c_nonce (calls e_state) = [1] /\ map c_timeout (calls e_state) = [1003] /\ pending e_state = [(2, (1, false))] /\
+  get_bal (bal e_state) (0, 4, 2) = 940 /\ get_bal (bal e_state) (ERC20MOD, 4, 2) = 60 /\ get_bal (bal e_state) (MODULE, 4, 1) = 100060 /\
+  snd (step e_state (ExecResult 2)) = Panic /\
+  snd (step e_state (Observe 1003)) = Panic /\ snd (step e_state (Observe 5000)) = Panic /\
+  snd (step e_state (Observe 1002)) = Ok.
+Proof. exact erc20_call_refund_impossible. Qed.
+Print Assumptions C05_bridge_call_refund_of_external_erc20_impossible_refuted.
